@@ -12,6 +12,7 @@ import (
 	"encoding/binary"
 	"fmt"
 	"golang.org/x/text/unicode/norm"
+	"math"
 	"os"
 	"runtime"
 	"runtime/debug"
@@ -461,7 +462,18 @@ func c17RefBody(draw func(int) int) []byte {
 			body = append(body, append(mpStrHeader(len(pre)), pre...)...)
 		case 3, 4:
 			body = append(body, 0x92)
-			body = append(body, mpUint(v)...)
+			switch draw(8) {
+			case 0, 1: // a decimal as float64
+				f := []float64{0.3, 0.1, 0.30000000000000004, 2.5}[draw(4)]
+				b := []byte{0xcb, 0, 0, 0, 0, 0, 0, 0, 0}
+				binary.BigEndian.PutUint64(b[1:], math.Float64bits(f))
+				body = append(body, b...)
+			case 2, 3: // ... and as text (how numbers that float64 cannot hold travel): the same decimal, or a neighbour
+				t := []string{"0.3", "0.1", "0.29999999999999999", "0.30000000000000004", "0.10000000000000000001", "2.5"}[draw(6)]
+				body = append(body, append(mpStrHeader(len(t)), t...)...)
+			default:
+				body = append(body, mpUint(v)...)
+			}
 			body = append(body, 0xc2+byte(draw(2)))
 		default:
 			body = append(body, mpUint(v)...)
